@@ -46,9 +46,10 @@ def rand_scalar(rng):
 
 def values_for(cls, rng):
     if cls == 'TextJsonObj':
-        return ['{"a": 1}', json.dumps({'k': [1, 2, {'z': None}], u'\xe9': u'☃'}), '{}', json.dumps({'big': 'x' * 5000})]
+        return ['{"a": 1}', json.dumps({'k': [1, 2, {'z': None}], u'\xe9': u'☃'}), '{}', json.dumps({'big': 'x' * 5000}),
+                json.dumps({'body': '<html><body>embedded markup</body></html>'}), '{"doc": "<!doctype html><html></html>"}']
     if cls == 'TextJsonArr':
-        return ['[1, 2, 3]', '[]', json.dumps([{'a': 1}, 'b', None])]
+        return ['[1, 2, 3]', '[]', json.dumps([{'a': 1}, 'b', None]), json.dumps(['<html>', '<html lang="en">'])]
     if cls == 'BytesJsonObj':
         return [b'{"a": 1}', json.dumps({'k': u'\xe9'}).encode('utf8'), b'[1,2]']
     if cls == 'TextHtml':
